@@ -237,4 +237,6 @@ def run(res, tier):
     ]
     res.rule = ("one case = one feasible path of chain / _check_loop / a push site in process_ca_cer; "
                 "evaluations = z3 queries (64-bit bit-vector arithmetic for the depth)")
+    import argslice
+    argslice.check_cli_number(res, E, mprop, "max_ca_depth", "--max-ca-depth", False, "CA chains are then cut at another depth than the operator gave")
     mprop.finish_engine(res, E)
